@@ -4,6 +4,7 @@ import (
 	"fmt"
 	"math"
 	"strconv"
+	"strings"
 )
 
 // C10, the stream filters: aligner / aligner with fill mode (both packages), delta and rate filter (datasource
@@ -13,9 +14,12 @@ import (
 //	( align pNanos ) ( alignfill pNanos linear|forward|bogus ) [both packages; fixed period, UTC]
 //	( delta nn max ) ( rate 'unit perSeconds nn max ) [datasource package; max: int64 or d:<bits>]
 //
-// What stays outside the model are CALENDAR alignment periods: `X rep|ds <exact|mask> <from> <to> <tree>` cases with
-// ( aligncal day|week|month|quarter|halfyear|year 'zone ) / ( aligncalfill unit 'zone mode ); for those the Lean driver
-// evaluates only C10's spec predicate on the typed observation of the real code (no model, no theorem).
+// Aligner filters over CALENDAR alignment periods are model-compared `q` cases as well (genC10Cal): the filter carries the
+// zone's offset table for the Lean model,
+// ( aligncal day|week|month|quarter|halfyear|year 'zone init table ) / ( aligncalfill unit 'zone init table mode ),
+// table = C12's encoding (when:off,when:off,... | -), recovered from the real zone through ZoneBounds (c12Extract).
+// The table-less forms ( aligncal unit 'zone ) / ( aligncalfill unit 'zone mode ) remain valid in `X rep|ds ...` lines
+// (spec predicate on the observation only; no longer generated) and in C05's Q lines.
 // All inputs generated in this file are schema-conforming by construction.
 
 func execXLineX(toks []string) (obs string, inputFail bool) {
@@ -294,11 +298,38 @@ func genC10StreamSmallScope(e *qEmitter) {
 	}
 }
 
-// genC10Cal: spec-only X cases — aligner filters over CALENDAR alignment periods (outside the Lean model, which has
-// fixed periods only).  Zones whose DST switches are not at local midnight (known finding D14 is about those).
+// calZone renders the zone's offset table for the window of the generated data (2024-01-01 .. 2026-01-01, +-800 days):
+// "init table" in C12's encoding.  The table is what the REAL zone answers through ZoneBounds/Zone (c12Extract).
+var calZoneCache = map[string][2]string{}
+
+func calZone(name string) (init, table string) {
+	if v, ok := calZoneCache[name]; ok {
+		return v[0], v[1]
+	}
+	loc, err := c12LoadLocation(name)
+	if err != nil {
+		panic("C10 calendar cases: zone " + name + " not available: " + err.Error())
+	}
+	z := c12Extract(name, loc)
+	f := strings.Fields(z.part(1704067200, 1767225600)) // zone <name> <init> <table>
+	calZoneCache[name] = [2]string{f[2], f[3]}
+	return f[2], f[3]
+}
+
+func calAlign(unit, zone, mode string) string {
+	init, table := calZone(zone)
+	if mode == "" {
+		return qT("aligncal", unit, qQ(zone), init, table)
+	}
+	return qT("aligncalfill", unit, qQ(zone), init, table, mode)
+}
+
+// genC10Cal: aligner filters over CALENDAR alignment periods, MODEL-COMPARED q cases (the Lean model interprets the
+// period through Model/Period.lean with the zone table carried by the filter).  Zones whose DST switches are not at
+// local midnight (known finding D14 is about the others: there the laws C10_sound asks of a period fail).
 func genC10Cal(e *qEmitter, c *Ctx) {
 	emit := func(kind string, tree string) {
-		e.emit(fmt.Sprintf("X %s exact %d %d %s", kind, int64(0), int64(4e18), tree), false)
+		e.emit(fmt.Sprintf("q %s exact %d %d %s", kind, int64(0), int64(4e18), tree), false)
 	}
 	const base = int64(1711584000) * 1e9 // 2024-03-28T00:00:00Z: the European DST switch (03-31) is inside the series
 	mk := func(n int, step int64) xSeries {
@@ -313,15 +344,23 @@ func genC10Cal(e *qEmitter, c *Ctx) {
 	}
 	hours := mk(60, 7*3600e9)   // 17 days, several readings per day
 	weeks := mk(40, 11*86400e9) // 440 days, one reading every 11 days
+	// readings exactly on local midnights of Europe/Berlin around the switch (boundary-aligned clusters: no
+	// interpolation), with a two-day hole
+	onGrid := xSeries{}
+	for i, t := range []int64{1711666800, 1711753200, 1711839600, 1711922400, 1712181600, 1712268000} {
+		onGrid.ts = append(onGrid.ts, t*1e9)
+		onGrid.vals = append(onGrid.vals, int64(8*(i+1)))
+	}
 	zones := []string{"UTC", "Europe/Berlin", "America/New_York", "Asia/Kolkata"}
+	units := []string{"day", "week", "month", "quarter", "halfyear", "year"}
 	afm := func(u string) string { return qT("afm", qQ(u), "'", "nil") }
 	for _, z := range zones {
-		for _, unit := range []string{"day", "week", "month", "quarter", "halfyear", "year"} {
+		for _, unit := range units {
 			s := weeks
 			if unit == "day" || unit == "week" {
 				s = hours
 			}
-			fs := []string{qT("aligncal", unit, qQ(z)), qT("aligncalfill", unit, qQ(z), "linear"), qT("aligncalfill", unit, qQ(z), "forward")}
+			fs := []string{calAlign(unit, z, ""), calAlign(unit, z, "linear"), calAlign(unit, z, "forward")}
 			for _, f := range fs {
 				for _, dt := range []string{"int", "dec"} {
 					for _, req := range []bool{true, false} {
@@ -339,15 +378,53 @@ func genC10Cal(e *qEmitter, c *Ctx) {
 					emit("ds", qT("tods", qT("rfilt", xRstatic(s, opt), f), "'rd"))
 				}
 			}
+			// the typing rule does not depend on the period: non-numeric fields are rejected; the unsupported fill mode
+			// is a row error; a calendar aligner after a fixed one and before another calendar one (coarser unit, other zone)
+			d := xDstatic("counter", "dec", true, s, 0)
+			emit("ds", qT("dfilt", qT("dstatic", qT("fm", "'s", "str", "1", "'", "nil"), qT("rows", qT("r", strconv.FormatInt(base, 10), "'a"))), fs[0]))
+			emit("ds", qT("dfilt", qT("dstatic", qT("fm", "'b", "bool", "0", "'", "nil"), qT("rows")), fs[1]))
+			emit("rep", qT("rfilt", xRstatic(s, false), qT("append", qT("cast", qT("ref", "'ri"), "str"), afm("s")), fs[2]))
+			emit("ds", qT("dfilt", d, calAlign(unit, z, "bogus")))
+			emit("ds", qT("dfilt", d, qT("alignfill", "3600000000000", "linear"), fs[0]))
+			emit("ds", qT("dfilt", d, calAlign("day", z, "forward"), calAlign(unit, zones[(len(unit)+len(z))%len(zones)], "linear")))
+			emit("rep", qT("join", "full", qT("fromds", qT("dfilt", d, fs[0])),
+				qT("rfilt", qT("fromds", qT("dfilt", xDstatic("other", "int", true, hours, 0), calAlign(unit, "UTC", ""))), qT("override", "'other", "'o2", "nil", "nil"))))
+			emit("ds", qT("dfilt", xDstatic("counter", "int", true, onGrid, 0), fs[1]))
+			emit("ds", qT("dfilt", xDstatic("counter", "dec", false, onGrid, 3), fs[2]))
+		}
+	}
+	// zones INSIDE known finding D14 (a period-start midnight skipped in the window of the data: America/Havana
+	// 2024-03-10 00:00 -> 01:00, Asia/Beirut 2024-03-31 00:00 -> 01:00): aligners WITHOUT fill mode only (the gap filler
+	// does not terminate where GetEndTime x = x).  C10_sound's period hypothesis fails there (C10_witness_D14_gapfill), the
+	// correspondence still has to hold: the model interprets the same time.Date rule.
+	d14 := []struct {
+		zone  string
+		start int64
+	}{{"America/Havana", 1709856000}, {"Asia/Beirut", 1711584000}}
+	for _, z := range d14 {
+		for _, unit := range []string{"day", "week", "month"} {
+			for _, step := range []int64{3 * 3600, 7 * 1800} {
+				s := xSeries{}
+				v := int64(3)
+				for i := 0; i < 40; i++ {
+					s.ts = append(s.ts, (z.start+int64(i)*step)*1e9+int64(i%5)*977e9)
+					s.vals = append(s.vals, v)
+					v += int64((i*7)%11) - 3
+				}
+				emit("ds", qT("dfilt", xDstatic("counter", "int", true, s, 0), calAlign(unit, z.zone, "")))
+				emit("rep", qT("rfilt", xRstatic(s, true), calAlign(unit, z.zone, "")))
+			}
 		}
 	}
 	// seeded random: random series over a few weeks, random unit / zone / fill
 	r := c.Rng
 	n := c.Pick(300, 3000)
-	units := []string{"day", "week", "month", "quarter", "halfyear", "year"}
 	for i := 0; i < n; i++ {
 		s := xSeries{}
 		t := base + int64(r.Intn(86400))*1e9
+		if r.Intn(3) == 0 {
+			t = 1730246400e9 + int64(r.Intn(86400))*1e9 // 2024-10-30: the autumn switches (Berlin 10-27 is before, New York 11-03 inside)
+		}
 		v := int64(r.Intn(40))
 		for k := r.Small(14); k > 0; k-- {
 			s.ts = append(s.ts, t)
@@ -360,10 +437,18 @@ func genC10Cal(e *qEmitter, c *Ctx) {
 		if r.Intn(4) == 0 {
 			unit = units[3+r.Intn(3)]
 		}
-		f := qT("aligncal", unit, qQ(zones[r.Intn(len(zones))]))
+		f := calAlign(unit, zones[r.Intn(len(zones))], "")
 		if r.Intn(3) > 0 {
-			f = qT("aligncalfill", unit, qQ(zones[r.Intn(len(zones))]), []string{"linear", "forward"}[r.Intn(2)])
+			f = calAlign(unit, zones[r.Intn(len(zones))], []string{"linear", "forward"}[r.Intn(2)])
 		}
 		emit("ds", qT("dfilt", xDstatic("counter", dt, r.Intn(4) != 0, s, 2+r.Intn(3)), f))
+		if i%10 == 0 && len(s.ts) > 0 {
+			// the same series moved next to the skipped midnight of a D14 zone, plain aligner
+			z := d14[r.Intn(len(d14))]
+			for k := range s.ts {
+				s.ts[k] += (z.start + 86400 - base/1e9) * 1e9
+			}
+			emit("ds", qT("dfilt", xDstatic("counter", dt, true, s, 0), calAlign(units[r.Intn(3)], z.zone, "")))
+		}
 	}
 }
